@@ -579,6 +579,39 @@ func anchorOracle(fn string, h, k int, x float64) (ok bool, obs, ref float64, la
 		}
 		obs = sp.Mgamma(a, k)
 		ref = math.Exp(ref)
+	case "BesselIDomain", "LogBesselIDomain":
+		return domainOracle(fn, h, x)
+	case "SinPi":
+		obs, ref, label = sp.SinPi(x), math.Sin(math.Pi*x), "sinpi"
+		return math.Abs(obs-ref) <= 1e-12, obs, ref, label
+	case "CosPi":
+		obs, ref, label = sp.CosPi(x), math.Cos(math.Pi*x), "cospi"
+		return math.Abs(obs-ref) <= 1e-12, obs, ref, label
+	case "Digamma3Quarter":
+		obs = sp.Digamma(x) - sp.Digamma(1)
+		ref = math.Pi/2 - 3*math.Ln2
+		for j := 1; j <= k; j++ {
+			ref += 1 / (float64(j) - 0.75)
+		}
+		return math.Abs(obs-ref) <= tol*(1+math.Abs(ref)), obs, ref, "digamma"
+	case "PolygammaNegHalf":
+		mult := math.Pow(2, float64(k+1)) - 1
+		obs = sp.Polygamma(k, x) - mult*sp.Polygamma(k, 1)
+		ref = polygNegHalfRef(k, int(0.5-x))
+		return math.Abs(obs-ref) <= tol*(math.Abs(ref)+mult*math.Abs(sp.Polygamma(k, 1))), obs, ref, "polygamma:reflect"
+	case "ZetaReflect":
+		s1 := 1 - x
+		lg, sg := math.Lgamma(s1)
+		obs = sp.Zeta(x)
+		lr := math.Log(2) + (x-1)*math.Log(2*math.Pi) + lg + math.Log(math.Abs(math.Sin(math.Pi*x/2))) + math.Log(sp.Zeta(s1))
+		ref = float64(sg) * math.Exp(lr)
+		if math.Sin(math.Pi*x/2) < 0 {
+			ref = -ref
+		}
+		if !finite(ref) {
+			return true, obs, ref, "zeta:reflect"
+		}
+		return finite(obs) && math.Abs(obs-ref) <= 1e-9*math.Abs(ref), obs, ref, "zeta:reflect"
 	default:
 		return true, 0, 0, ""
 	}
